@@ -106,6 +106,10 @@ def work_builtin(item):
     rv, err = L.call("Crystal_AddCrystal", ctypes.byref(mk(b"one_too_many")), None)
     if rv != 0 or err is None:
         st.violation("builtin:grew-past-capacity", dict(capacity=cap), "0 and error", dict(rv=rv, error=err))
+    st.ev()
+    rv_ns = L.fn["Crystal_AddCrystal"](ctypes.byref(mk(b"one_too_many_noslot")), None, None)      # the same refusal without an error slot
+    if rv_ns != 0:
+        st.violation("builtin:grew-past-capacity", dict(capacity=cap, error_slot=False), "0", dict(rv=rv_ns))
     names1, n1, _ = c15.cstr_list(L, "Crystal_GetCrystalsList", None)
     exp = sorted(names0 + added)
     st.ev()
